@@ -121,6 +121,11 @@ def run_call(params: List[Tuple[str, Any, Any]], ret_ann, tvspec, args, atoms, o
         a = args[i]
         if a == "omit":
             continue
+        if a == "dflt":
+            # the argument expression evaluates to the very Value object stored as the parameter's default
+            # (`name = "a"; def f(x: int = name): ...; f(name)`): still an explicitly passed argument
+            call_args.append((Composite(dflt), nm))
+            continue
         call_args.append((Composite(arg_value(ann, a, atoms)), nm))
     ctx = _CanAssignBasedContext(get_checker())
     actual = preprocess_args(call_args, ctx)
